@@ -241,6 +241,7 @@ class Consumer(object):
         self._commit_req = None  # Track outstanding commit request
         # For tracking various async operations
         self._start_d = None  # deferred for alerting user of errors
+        self._run = 0  # number of runs stopped so far (results of older runs are stale)
         self._request_d = None  # outstanding KafkaClient request deferred
         self._retry_call = None  # IDelayedCall object for delayed retries
         self._commit_call = None  # IDelayedCall for delayed commit retries
@@ -458,6 +459,12 @@ class Consumer(object):
             self._commit_looper.stop()
         # Done stopping
         self._stopping = False
+        # This run is over. The client may complete a request after the fact
+        # although we cancelled it (the cancel is swallowed while it resolves
+        # metadata): forget the request, so that the next start() issues its
+        # own, and never let the late result into a later run.
+        self._run += 1
+        self._request_d = None
         # Keep track of state for debugging
         self._state = "stopped"
 
@@ -1065,6 +1072,23 @@ class Consumer(object):
             _msg_block_d, self._msg_block_d = self._msg_block_d, None
             _msg_block_d.callback(True)
 
+    def _in_this_run(self, handler):
+        """Tie a request's result handler to the run that issues the request
+
+        Once that run has been stopped the result (which the client may
+        deliver late, or to a consumer that has been started again since)
+        is dropped.
+        """
+        run = self._run
+
+        def handle(result):
+            if self._run != run:
+                log.debug("%r: dropping the result of a request of an earlier run: %r", self, result)
+                return None
+            return handler(result)
+
+        return handle
+
     def _do_fetch(self):
         """Send a fetch request if there isn't a request outstanding
 
@@ -1093,7 +1117,9 @@ class Consumer(object):
             # We need to fetch the offset for our topic/partition
             offset_request = OffsetRequest(self.topic, self.partition, self._fetch_offset, 1)
             self._request_d = self.client.send_offset_request([offset_request])
-            self._request_d.addCallbacks(self._handle_offset_response, self._handle_offset_error)
+            self._request_d.addCallbacks(
+                self._in_this_run(self._handle_offset_response), self._in_this_run(self._handle_offset_error)
+            )
         elif self._fetch_offset == OFFSET_COMMITTED:
             # We need to fetch the committed offset for our topic/partition
             # Note we use the same callbacks, as the responses are "close
@@ -1104,7 +1130,9 @@ class Consumer(object):
                 self._start_d.errback(failure)
             request = OffsetFetchRequest(self.topic, self.partition)
             self._request_d = self.client.send_offset_fetch_request(self.consumer_group, [request])
-            self._request_d.addCallbacks(self._handle_offset_response, self._handle_offset_error)
+            self._request_d.addCallbacks(
+                self._in_this_run(self._handle_offset_response), self._in_this_run(self._handle_offset_error)
+            )
         else:
             # Create fetch request payload for our partition
             request = FetchRequest(self.topic, self.partition, self._fetch_offset, self.buffer_size)
@@ -1117,8 +1145,8 @@ class Consumer(object):
             # We need a temp for this because if the response is already
             # available, _handle_fetch_response() will clear self._request_d
             d = self._request_d
-            d.addCallback(self._handle_fetch_response)
-            d.addErrback(self._handle_fetch_error)
+            d.addCallback(self._in_this_run(self._handle_fetch_response))
+            d.addErrback(self._in_this_run(self._handle_fetch_error))
 
     def _commit_timer_failed(self, fail):
         """Handle an error in the commit() function
